@@ -48,6 +48,13 @@ func runGenerate(prof *Profile, seed uint64, verbose bool) (res *RunResult) {
 	if prof.ModeBEvery > 0 && seed%uint64(prof.ModeBEvery) == 0 {
 		s = newModeBSim(prof)
 		res.Trace = append(res.Trace, Op{ID: 0, K: "mode", Msg: "B"})
+	} else if prof.SatGenesisEvery > 0 && seed%uint64(prof.SatGenesisEvery) == 1 {
+		// the chain starts from a genesis whose statistics are saturated: every statistics update of the run fails
+		worldOrbiterGenesis = saturatedStatsGenesis()
+		s = NewSim(prof)
+		s.statsTainted = true
+		s.Stats.Fault("statistics_saturated_by_genesis")
+		res.Trace = append(res.Trace, Op{ID: 0, K: "mode", Msg: "S"})
 	} else {
 		s = NewSim(prof)
 	}
@@ -98,6 +105,11 @@ func runReplayOpt(prof *Profile, trace []Op, verbose bool, restartEveryBlock boo
 	}()
 	if len(trace) > 0 && trace[0].K == "mode" && trace[0].Msg == "B" {
 		s = newModeBSim(prof)
+	} else if len(trace) > 0 && trace[0].K == "mode" && trace[0].Msg == "S" {
+		worldOrbiterGenesis = saturatedStatsGenesis()
+		s = NewSim(prof)
+		s.statsTainted = true
+		s.Stats.Fault("statistics_saturated_by_genesis")
 	} else {
 		s = NewSim(prof)
 	}
